@@ -503,7 +503,12 @@ def build_session(reg):
 
 
 def extra_checks(tier, seed):
-    return []
+    if tier != "thorough":
+        return []
+    from pyvc import replaylib as Rp
+    return [Rp.native_crosscheck("C20/bounded/keyring-real-nacl", _HARNESS,
+                                 "three payloads x round trip, wrong key, every single-octet tampering position sampled by the "
+                                 "harness, serializer tag, uncovered URI -- with freshly generated NaCl keys")]
 
 
 # ------------------------------------------------------------------------------------------ replay on the real code
